@@ -23,7 +23,7 @@ import threading
 
 from hypothesis import strategies as st
 
-from vlib.core import HarnessError, REPO_DIR, Sub
+from vlib.core import HarnessError, REPO_DIR, Sub, Violation
 
 PROPERTY = 'C12'
 LEVEL = 'fault_enumeration'
@@ -72,6 +72,8 @@ _R_RENAME = os.rename
 _R_UNLINK = os.unlink
 _R_REMOVE = os.remove
 _R_MKDIR = os.mkdir
+_R_FSYNC = os.fsync
+_R_FDATASYNC = getattr(os, 'fdatasync', None)
 
 _WRITE_FLAGS = os.O_WRONLY | os.O_RDWR | os.O_CREAT | os.O_TRUNC | os.O_APPEND
 
@@ -87,11 +89,36 @@ ERRS = {
     'rename': ['EXDEV', 'EACCES', 'EIO', 'ENOSPC'],
     'unlink': ['EACCES', 'EIO'],
     'mkdir': ['EACCES', 'ENOSPC', 'EIO'],
+    'fsync': ['EIO', 'ENOSPC'],
 }
 
 
 class BodyError(Exception):
     """The caller's body fails (deliberately not an OSError)."""
+
+
+class BodyAbort(BaseException):
+    """The caller's body is left through something that is not an Exception (like KeyboardInterrupt is)."""
+
+
+# the ways a with-body can be left exceptionally; everything but the first is NOT an Exception subclass
+EXC_KINDS = ['Exception', 'KeyboardInterrupt', 'SystemExit', 'GeneratorExit', 'BaseException']
+_EXC_TYPES = {'Exception': BodyError, 'KeyboardInterrupt': KeyboardInterrupt, 'SystemExit': SystemExit,
+              'GeneratorExit': GeneratorExit, 'BaseException': BodyAbort}
+
+
+def make_body_exc(kind, msg: str) -> BaseException:
+    return _EXC_TYPES[kind or 'Exception'](msg)
+
+
+def body_kinds(desc, i: int) -> list:
+    """Exception types used for the body-exception point i: all of them, or Exception + one rotating other."""
+    sel = desc.get('exc') or {}
+    if sel.get('all'):
+        return list(EXC_KINDS)
+    if 'off' not in sel:
+        return ['Exception']
+    return ['Exception', EXC_KINDS[1 + (i + sel['off']) % (len(EXC_KINDS) - 1)]]
 
 
 def make_oserror(name: str, path: str) -> OSError:
@@ -179,7 +206,8 @@ class FaultFS:
     """
     _installed = None
     _NAMES = [(io, 'open'), (builtins, 'open'), (os, 'open'), (os, 'replace'), (os, 'rename'),
-              (os, 'unlink'), (os, 'remove'), (os, 'mkdir')]
+              (os, 'unlink'), (os, 'remove'), (os, 'mkdir'), (os, 'fsync')] + (
+                  [(os, 'fdatasync')] if _R_FDATASYNC else [])
 
     def __init__(self, root: str, hook) -> None:
         self.root = os.path.realpath(root)
@@ -269,6 +297,29 @@ class FaultFS:
                 raise
         return wrapped
 
+    def _sync(self, real):
+        """fsync/fdatasync of a descriptor that refers to a file or directory below the scratch directory."""
+        def wrapped(fd):
+            rel = None
+            try:
+                num = fd if isinstance(fd, int) else fd.fileno()
+                target = os.readlink(f'/proc/self/fd/{num}')
+                if target == self.root:
+                    rel = '.'
+                elif target.startswith(self.prefix):
+                    rel = target[len(self.prefix):]
+            except (OSError, AttributeError, ValueError):
+                rel = None
+            if rel is None:
+                return real(fd)
+            b = self.boundary('fsync', 'pre', rel, {})
+            try:
+                return real(fd)
+            except OSError as exc:
+                b['res'] = type(exc).__name__
+                raise
+        return wrapped
+
     def install(self) -> None:
         if FaultFS._installed is not None:
             raise HarnessError('FaultFS installed twice')
@@ -278,8 +329,10 @@ class FaultFS:
             (io, 'open'): self._open, (builtins, 'open'): self._open, (os, 'open'): self._os_open,
             (os, 'replace'): self._two('replace', _R_REPLACE), (os, 'rename'): self._two('rename', _R_RENAME),
             (os, 'unlink'): self._one('unlink', _R_UNLINK), (os, 'remove'): self._one('unlink', _R_REMOVE),
-            (os, 'mkdir'): self._one('mkdir', _R_MKDIR),
+            (os, 'mkdir'): self._one('mkdir', _R_MKDIR), (os, 'fsync'): self._sync(_R_FSYNC),
         }
+        if _R_FDATASYNC:
+            repl[(os, 'fdatasync')] = self._sync(_R_FDATASYNC)
         self.saved = [(mod, name, getattr(mod, name)) for mod, name in self._NAMES]
         FaultFS._installed = self
         for (mod, name), fn in repl.items():
@@ -380,6 +433,7 @@ class Plan:
         parent = 'd' + ''.join(f'/n{i + 1}' for i in range(nested))
         self.dest = parent + '/' + d['name']
         self.style = d['path_style']
+        self.base = 'd'
         self.initial['d/keep.dat'] = blob(seed + 7, 37)
         if nested == 0:
             for k in sorted(set(d['stale'])):
@@ -441,7 +495,8 @@ class Plan:
         self.text = False
         self.dirs = ['d']
         self.dest = 'd/' + d['name']
-        self.style = 'str'
+        self.style = d.get('path_style', 'str')
+        self.base = 'd'
         src = os.path.join(REPO_DIR, 'tests', 'test_vec', d['bsp'])
         old = read_file(src)
         if old is None:
@@ -520,7 +575,7 @@ class Recorder:
         if act == 'kill':
             os._exit(137)
         if act == 'body':
-            self.exc = BodyError(f'body fails at boundary {idx}')
+            self.exc = make_body_exc(a.get('exc'), f'body fails at boundary {idx}')
             return self.exc
         if act == 'partial':
             self.exc = make_oserror('ENOSPC', b['path'])
@@ -529,6 +584,8 @@ class Recorder:
         return self.exc
 
     def is_mine(self, exc) -> bool:
+        if isinstance(exc, (Violation, HarnessError)) or self.exc is None:
+            return False        # the harness's own control flow is never swallowed
         seen = 0
         while exc is not None and seen < 20:
             if exc is self.exc:
@@ -542,7 +599,41 @@ def sig(b: dict) -> tuple:
     return (b['op'], b['at'], b['path'], b.get('dst'), b.get('n'), b.get('mode'), b.get('phase'))
 
 
-def run_once(plan: Plan, root: str, rec: Recorder, harness_raise=None) -> dict:
+# spellings of the destination path.  cwd is restored by the caller (try/finally); shards are separate processes.
+CWD_IN_ROOT = ('rel', 'rel_dot')
+CWD_IN_BASE = ('bare', 'bare_path', 'dot', 'updir')      # cwd = the existing directory the file (or n1/..) is in
+PATH_STYLES = ['str', 'path', 'abs_dot', 'abs_dotdot', 'rel', 'rel_dot', 'bare', 'bare_path', 'dot', 'updir']
+
+
+def spell_target(style: str, root: str, base: str, dest: str):
+    """Change directory as the spelling needs and return the destination as the caller would write it."""
+    import pathlib
+    full = os.path.join(root, dest)
+    inner = dest[len(base) + 1:]                    # relative to the existing base directory: 'a.bin', 'n1/a.bin'
+    if style == 'str':
+        return full
+    if style == 'path':
+        return pathlib.Path(full)
+    if style == 'abs_dot':
+        return os.path.join(root, base, '.', inner)
+    if style == 'abs_dotdot':
+        return os.path.join(root, base, '..', base, inner)
+    if style in CWD_IN_ROOT:
+        os.chdir(root)
+        return dest if style == 'rel' else './' + dest
+    if style in CWD_IN_BASE:
+        os.chdir(os.path.join(root, base))
+        if style == 'bare':
+            return inner                            # bare file name when nothing has to be created
+        if style == 'bare_path':
+            return pathlib.Path(inner)
+        if style == 'dot':
+            return './' + inner
+        return '../' + base + '/' + inner
+    raise HarnessError(f'unknown path style {style!r}')
+
+
+def run_once(plan: Plan, root: str, rec: Recorder, harness_raise=None, exc_kind=None) -> dict:
     """Populate `root`, run the scenario under FaultFS with `rec` as hook.  Returns the outcome.
 
     harness_raise = (phase, j): the body itself raises BodyError before its j-th call (j == len: after the last).
@@ -555,19 +646,16 @@ def run_once(plan: Plan, root: str, rec: Recorder, harness_raise=None) -> dict:
     cwd = os.getcwd()
     fs.install()
     try:
-        full = os.path.join(fs.root, plan.dest)
-        if plan.style == 'rel':
-            os.chdir(fs.root)
-            target = plan.dest
-        elif plan.style == 'path':
-            import pathlib
-            target = pathlib.Path(full)
-        else:
-            target = full
+        target = spell_target(plan.style, fs.root, plan.base, plan.dest)
         if plan.kind == 'bsp':
             try:
-                plan.bsp.save(target)
-            except (OSError, BodyError) as exc:
+                if plan.style in CWD_IN_BASE:
+                    # the map was loaded by that name in its own folder and is saved in place
+                    plan.bsp.filename = target
+                    plan.bsp.save()
+                else:
+                    plan.bsp.save(target)
+            except BaseException as exc:
                 if not rec.is_mine(exc):
                     raise
                 out['failed_phase'] = 0
@@ -608,13 +696,13 @@ def run_once(plan: Plan, root: str, rec: Recorder, harness_raise=None) -> dict:
                 with writer as f:
                     for j, call in enumerate(calls):
                         if harness_raise == (ph, j):
-                            rec.exc = BodyError(f'body fails before call {j}')
+                            rec.exc = make_body_exc(exc_kind, f'body fails before call {j}')
                             raise rec.exc
                         do(f, call)
                     if harness_raise == (ph, len(calls)):
-                        rec.exc = BodyError('body fails after its last call')
+                        rec.exc = make_body_exc(exc_kind, 'body fails after its last call')
                         raise rec.exc
-            except (OSError, BodyError) as exc:
+            except BaseException as exc:
                 if not rec.is_mine(exc):
                     raise
                 out['failed_phase'] = ph
@@ -783,6 +871,9 @@ def only_ok(desc, kind, at=None, act=None, op=None) -> bool:
 def classify(desc, plan: Plan, trace: list, ctx) -> None:
     if plan.kind == 'bsp':
         ctx.label('bsp')
+        ctx.label('path:' + plan.style)
+        if plan.style in ('bare', 'bare_path'):
+            ctx.label('bare_name')
     else:
         ctx.label('text' if plan.text else 'bytes')
         ctx.label('old_present' if plan.contents[0] is not None else 'old_absent')
@@ -796,8 +887,11 @@ def classify(desc, plan: Plan, trace: list, ctx) -> None:
             ctx.label('abandoned_then_reused')
         if 'abandon2' in plan.modes:
             ctx.label('double_enter')
-        if desc['path_style'] == 'rel':
+        if desc['path_style'] in CWD_IN_ROOT + CWD_IN_BASE:
             ctx.label('relative')
+        if desc['path_style'] in ('bare', 'bare_path') and not desc['nested']:
+            ctx.label('bare_name')
+        ctx.label('path:' + desc['path_style'])
         if any(b['op'] == 'write' and b['n'] >= 65536 for b in trace):
             ctx.label('big_write')
         if any(b['op'] == 'seek' for b in trace):
@@ -962,18 +1056,25 @@ def execute_body(desc, ctx) -> None:
                 continue
             if plan.modes[b['phase']] != 'with':
                 continue
-            root = cd.fresh()
-            rec = Recorder({'at': i, 'act': 'body'}, faulted_run_inspector(ctx, plan, root, f'body@{i}'))
-            out = run_once(plan, root, rec)
-            if not rec.fired or out['exc'] is None:
-                raise HarnessError(f'body exception at boundary {i} did not propagate')
-            same_prefix(trace, rec.trace, i, f'body@{i}')
-            ctx.label('pt:body:' + b['at'])
-            ctx.count()      # one enumerated (scenario, point, kind) execution
-            check_listing(ctx, plan, root, out['failed_phase'], 'body',
-                          f'body raised at boundary {i} ({b["at"]} write of {b["n"]} to {b["path"]}, phase {b["phase"]})',
-                          at=b['at'], boundary=i)
-            cd.drop(root)
+            for kind in body_kinds(desc, i):
+                root = cd.fresh()
+                rec = Recorder({'at': i, 'act': 'body', 'exc': kind},
+                               faulted_run_inspector(ctx, plan, root, f'body@{i}:{kind}'))
+                out = run_once(plan, root, rec)
+                if not rec.fired or out['exc'] is None:
+                    ctx.fail('body_exception_swallowed',
+                             f'{kind} raised by the body at boundary {i} ({b["at"]} write to {b["path"]}) did not '
+                             f'propagate out of the with-statement', at=b['at'], boundary=i, exc_kind=kind)
+                    cd.drop(root)
+                    continue
+                same_prefix(trace, rec.trace, i, f'body@{i}')
+                ctx.label('pt:body:' + b['at'])
+                ctx.label('exc:' + kind)
+                ctx.count()      # one enumerated (scenario, point, kind) execution
+                check_listing(ctx, plan, root, out['failed_phase'], 'body',
+                              f'body left through {type(out["exc"]).__name__} at boundary {i} ({b["at"]} write of '
+                              f'{b["n"]} to {b["path"]}, phase {b["phase"]})', at=b['at'], boundary=i, exc_kind=kind)
+                cd.drop(root)
         # (2) raised by the body itself before its j-th call / after the last one
         if plan.kind != 'bsp':
             for ph, calls in enumerate(plan.calls):
@@ -982,16 +1083,23 @@ def execute_body(desc, ctx) -> None:
                 for j in range(len(calls) + 1):
                     if not only_ok(desc, 'body_h', ph * 1000 + j):
                         continue
-                    root = cd.fresh()
-                    rec = Recorder(None)
-                    out = run_once(plan, root, rec, harness_raise=(ph, j))
-                    if out['exc'] is None:
-                        raise HarnessError(f'harness body exception ({ph},{j}) did not propagate')
-                    ctx.label('pt:body:call')
-                    ctx.count()      # one enumerated (scenario, point, kind) execution
-                    check_listing(ctx, plan, root, out['failed_phase'], 'body',
-                                  f'body raised before call {j} of {len(calls)} in phase {ph}', at='call', boundary=j)
-                    cd.drop(root)
+                    for kind in body_kinds(desc, ph + j):
+                        root = cd.fresh()
+                        rec = Recorder(None)
+                        out = run_once(plan, root, rec, harness_raise=(ph, j), exc_kind=kind)
+                        if out['exc'] is None:
+                            ctx.fail('body_exception_swallowed',
+                                     f'{kind} raised by the body before call {j} of {len(calls)} in phase {ph} did not '
+                                     f'propagate out of the with-statement', at='call', boundary=j, exc_kind=kind)
+                            cd.drop(root)
+                            continue
+                        ctx.label('pt:body:call')
+                        ctx.label('exc:' + kind)
+                        ctx.count()      # one enumerated (scenario, point, kind) execution
+                        check_listing(ctx, plan, root, out['failed_phase'], 'body',
+                                      f'body left through {type(out["exc"]).__name__} before call {j} of {len(calls)} '
+                                      f'in phase {ph}', at='call', boundary=j, exc_kind=kind)
+                        cd.drop(root)
 
 
 # ----------------------------------------------------------------------------------------------------------------
@@ -1100,7 +1208,7 @@ class TwoPlan:
                 else:
                     final = new
                     versions[f'own new (use {u + 1})'] = new
-                uses.append({'chunks': chunks, 'new': new, 'fail_at': fail_at})
+                uses.append({'chunks': chunks, 'new': new, 'fail_at': fail_at, 'fail_kind': use.get('fail_kind')})
             self.writers.append({'dest': dest, 'old': old, 'text': text, 'uses': uses, 'final': final,
                                  'versions': versions})
 
@@ -1159,6 +1267,7 @@ def run_two(plan: TwoPlan, root: str, schedule, only=None):
         return None
 
     fs = FaultFS(root, hook)
+    bare = plan.desc.get('path_style') == 'bare'
 
     def work(t: int) -> None:
         local.wid = t
@@ -1168,10 +1277,12 @@ def run_two(plan: TwoPlan, root: str, schedule, only=None):
             sched.begin(t)
             from srctools import AtomicWriter
             full = os.path.join(fs.root, w['dest'])
+            if bare:
+                full = w['dest'][2:]              # relative to the directory 'd' both writers work in (cwd)
             writer = AtomicWriter(full, is_bytes=False) if w['text'] else AtomicWriter(full, is_bytes=True)
             for u, use in enumerate(w['uses']):
                 local.use = u
-                mine = BodyError(f'writer {t} fails in use {u + 1}')
+                mine = make_body_exc(use['fail_kind'], f'writer {t} fails in use {u + 1}')
                 fails = use['fail_at'] is not None
                 state[t]['cand'] = None if fails else use['new']
                 state[t]['has_cand'] = not fails
@@ -1183,7 +1294,7 @@ def run_two(plan: TwoPlan, root: str, schedule, only=None):
                             f.write(chunk)
                         if use['fail_at'] == len(use['chunks']):
                             raise mine
-                except BodyError as exc:
+                except BaseException as exc:
                     if exc is not mine:
                         raise
                 else:
@@ -1200,14 +1311,19 @@ def run_two(plan: TwoPlan, root: str, schedule, only=None):
         for t in range(n):
             if t != only:
                 sched.done[t] = True
+    cwd = os.getcwd()
     fs.install()
     try:
+        if bare:
+            os.chdir(os.path.join(fs.root, 'd'))    # before the threads start; process-wide, restored below
         for th in threads:
             th.start()
         for th in threads:
             th.join()
     finally:
         fs.uninstall()
+        if os.getcwd() != cwd:
+            os.chdir(cwd)
     for e in errors:
         if isinstance(e, HarnessError):
             raise e
@@ -1272,6 +1388,12 @@ def execute_two(desc, ctx) -> None:
             ctx.label('one_writer_fails')
         if any(len(w['uses']) > 1 for w in plan.writers):
             ctx.label('two:reuse')
+        if desc.get('path_style') == 'bare':
+            ctx.label('bare_name' if not plan.nested else 'relative')
+        for w in plan.writers:
+            for u in w['uses']:
+                if u['fail_at'] is not None and u['fail_kind'] not in (None, 'Exception'):
+                    ctx.label('exc:non_Exception')
         for lab in sorted(reuse_classes(events)):
             ctx.label(lab)
         if plan.nested:
@@ -1335,7 +1457,8 @@ def scenario_strategy(tier: str):
         return {
             'kind': 'writer',
             'name': draw(st.sampled_from(['a.bin', 'out.txt', 'map.bsp', 'donn\xe9es x.dat', 'tmp'])),
-            'path_style': draw(st.sampled_from(['str', 'path', 'rel'])),
+            'path_style': draw(st.sampled_from(PATH_STYLES + ['bare', 'bare_path'])),
+            'exc': {'all': tier != 'quick', 'off': draw(st.integers(0, 3))},
             'nested': nested,
             'stale': draw(st.lists(st.integers(1, 4), max_size=3)) if nested == 0 else [],
             'stale_size': draw(st.integers(0, 30)),
@@ -1351,11 +1474,17 @@ def scenario_strategy(tier: str):
     return scn()
 
 
+BSP_STYLES = ['bare', 'str', 'dot', 'path', 'bare_path', 'rel', 'updir', 'abs_dot']
+
+
 def bsp_cases(n_slices: int, fork_stride: int, errs=None):
     def gen(tier):
         for m in range(n_slices):
             d = {'kind': 'bsp', 'bsp': 'rot_main.bsp', 'name': 'rot_main.bsp', 'bump': 1,
                  'slice': [m, n_slices], 'fork': [fork_stride, m % max(fork_stride, 1)] if fork_stride else [0, 0],
+                 # the spelling of the file name rotates over the slices (every slice records a full trace)
+                 'path_style': BSP_STYLES[m % len(BSP_STYLES)],
+                 'exc': {'all': tier != 'quick', 'off': m},
                  'only': None}
             if errs:
                 d['errs'] = errs
@@ -1436,6 +1565,7 @@ def two_strategy(tier: str):
     use = st.fixed_dictionaries({
         'chunks': st.lists(st.one_of(st.integers(0, 30), st.integers(0, 30000)), min_size=0, max_size=3),
         'fail_at': st.one_of(st.none(), st.none(), st.none(), st.integers(0, 3)),
+        'fail_kind': st.sampled_from(EXC_KINDS),
     })
 
     def writer():
@@ -1454,6 +1584,7 @@ def two_strategy(tier: str):
         'nested': st.sampled_from([False, False, True]),
         'stale': st.lists(st.integers(1, 3), max_size=2),
         'schedule': st.one_of(bits, runs, runs),
+        'path_style': st.sampled_from(['abs', 'abs', 'bare']),
         'strict': st.just(False),
     })
 
@@ -1471,30 +1602,33 @@ def extra_evidence() -> dict:
 SUBCHECKS = [
     Sub('crash', execute_crash, strategy=scenario_strategy, quick=640, thorough=12000, floor=100, quick_shards=8,
         must_hit=('text', 'bytes', 'old_present', 'old_absent', 'nested', 'stale', 'repeat', 'abandoned_then_reused',
-                  'double_enter', 'relative', 'big_write',
+                  'double_enter', 'relative', 'big_write', 'bare_name', 'path:bare_path', 'path:dot', 'path:updir',
+                  'path:abs_dotdot', 'path:rel_dot',
                   'seek', 'pt:crash', 'pt:crash_window', 'pt:fork_kill')),
     Sub('fault', execute_fault, strategy=scenario_strategy, quick=480, thorough=16000, floor=80, quick_shards=8,
         must_hit=('text', 'bytes', 'old_present', 'old_absent', 'nested', 'stale', 'repeat', 'abandoned_then_reused',
-                  'double_enter',
+                  'double_enter', 'bare_name', 'path:bare_path', 'path:dot', 'path:updir',
                   'pt:fault:open:ENOSPC', 'pt:fault:write:partial', 'pt:fault:write:EIO', 'pt:fault:close:ENOSPC',
                   'pt:fault:close:EIO', 'pt:fault:replace:EXDEV', 'pt:fault:replace:EACCES', 'pt:fault:mkdir:EACCES',
                   'pt:fault:flush:ENOSPC', 'pt:fault:seek:EIO', 'pt:fault_window')),
     Sub('body', execute_body, strategy=scenario_strategy, quick=640, thorough=16000, floor=100, quick_shards=8,
         must_hit=('text', 'bytes', 'old_present', 'old_absent', 'nested', 'stale', 'repeat', 'abandoned_then_reused',
-                  'double_enter',
+                  'double_enter', 'bare_name', 'exc:Exception', 'exc:KeyboardInterrupt', 'exc:SystemExit',
+                  'exc:GeneratorExit', 'exc:BaseException',
                   'pt:body:pre', 'pt:body:mid', 'pt:body:call')),
     Sub('bsp_crash', execute_crash, enumerate=bsp_enum, floor=1, enum_counts_distinct=True,
-        quick_shards=8, must_hit=('bsp', 'pt:crash', 'pt:crash_window', 'pt:fork_kill')),
+        quick_shards=8, must_hit=('bsp', 'bare_name', 'path:dot', 'pt:crash', 'pt:crash_window', 'pt:fork_kill')),
     Sub('bsp_fault', execute_fault, enumerate=bsp_enum, floor=1, quick_shards=8,
         must_hit=('bsp', 'pt:fault:close:ENOSPC', 'pt:fault:replace:EXDEV', 'pt:fault:write:partial', 'pt:fault:seek:EIO')),
     Sub('bsp_body', execute_body, enumerate=bsp_enum, floor=1, quick_shards=8,
-        must_hit=('bsp', 'pt:body:pre', 'pt:body:mid')),
+        must_hit=('bsp', 'bare_name', 'pt:body:pre', 'pt:body:mid', 'exc:KeyboardInterrupt', 'exc:SystemExit',
+                  'exc:GeneratorExit', 'exc:BaseException')),
     Sub('two_enum', execute_two, enumerate=two_enum, floor=1500, quick_shards=8,
         must_hit=('schedule_valid', 'temp_name_contention', 'one_writer_fails', 'two:reuse_interleaved',
                   'two:reuse_released_name')),
     Sub('two_random', execute_two, strategy=two_strategy, quick=3200, thorough=50000, floor=500, quick_shards=8,
         must_hit=('overlap', 'temp_name_contention', 'one_writer_fails', 'nested', 'two:reuse_interleaved',
-                  'two:reuse_released_name')),
+                  'two:reuse_released_name', 'bare_name', 'exc:non_Exception')),
 ]
 
 MATCHERS = {}
